@@ -10,6 +10,7 @@
 from __future__ import annotations
 
 import gc
+from datetime import timedelta as _real_td
 
 import vf.h as H
 import vf.tok as K
@@ -201,3 +202,28 @@ def negative_tick_forms(k: int, hint: int, via: int) -> bool:
         except H.Poison:
             return done(True)          # the value reached the (stubbed) kernel as a distance: not a returned time either
     return done(False)
+
+
+# ---------------------------------------------------------------------------------------------
+BIG_K = [50, 500, 990, 1000, 1010, 1500, 3000, 12000]
+
+
+def lookup_file_scale(ki: int, hk: int, qi: int) -> bool:
+    """
+    pre: 0 <= ki < len(BIG_K) and 0 <= hk <= 3 and 0 <= qi <= 2
+    post: _
+    """
+    # beat-by-beat tempo-mapped songs: thousands of tempo events.  The query for a late tick gives the
+    # same answer from hint 0, from a near hint and from the exact hint, and no internal limit is hit
+    n = H.pick(BIG_K, ki)
+    hk_, qi_ = H.pick([0, 1, 2, 3], hk), H.pick([0, 1, 2], qi)
+    with H.untraced():
+        evs = [BPMEvent(tick=192 * i, timestamp=_real_td(microseconds=500000 * i), bpm=120.0, _proximal_bpm_event_index=i) for i in range(n)]
+        be = BPMEvents(events=evs, resolution=192)
+        g = [n - 1, n // 2, n - 2][qi_]
+        tick = 192 * g + 7
+        hint = [0, max(g - 3, 0), g, g // 2][hk_]
+        ts0, i0 = be.timestamp_at_tick(tick, start_iteration_index=hint)
+        ts1 = be.timestamp_at_tick_no_optimize_return(tick)
+        ok = i0 == g and ts0 == ts1 and ts0 == _real_td(microseconds=500000 * g) + _real_td(seconds=7 * 60 / (120.0 * 192))
+    return done(ok)
